@@ -40,7 +40,10 @@ STUBBED_NAMES = dict(hashmodel.STUBBED_NAMES, **{"id()": ["dds.introspect", "dds
 ASSUMPTIONS = base.ASSUMPTIONS + ["the two runs use different working directories", "id() inside dds.introspect / dds.structures_utils returns disjoint sets of numbers in the two runs (concrete: symbolic identities are realised as soon as dds puts them in a set)", "the frozen reference /verif/ref/dds_ref is the library at the commit recorded in /verif/ref/FROZEN_AT"]
 OUTSIDE = base.OUTSIDE + ["real PYTHONHASHSEED values / set iteration order (dds sorts every set it iterates today; a change that iterates a set unsorted is caught only if it shows as a different signature in this process)", "real separate interpreters and working directories (exercised in replay only)"]
 FUNCTIONS_ENCODED = base.FUNCTIONS_ENCODED + ["dds._plotting.* (export on)", "dds_ref.* (frozen reference)"]
-BOUNDS = {"quick": {}, "thorough": {}}
+BOUNDS = {
+    "quick": {"env": "T1 (int / str / list / path leaves) T5 T6 T7 T8: run A fresh process, memory store, cwd /, extra_debug off; run B disjoint object identities, other cwd, cache-wrapped store, extra_debug on, preceded by another state of the program, edited code and a name-clashing program; graph export on for T1 / T6", "ref": "T1 T5 T6 T7 T8 + T1 with str / bool / float / list / tuple / dict / path leaves vs the frozen reference", "pinned": "native run, real SHA-256"},
+    "thorough": {"env": "as quick + bool / float / tuple / dict / none / str3 / non-ASCII leaves on T1, str / list / path leaves on T5 T6 T7 T8", "ref": "as quick + the same leaf types on T5..T8"},
+}
 LAST_DETAIL = [""]
 
 
